@@ -162,12 +162,6 @@ package metric
 //@   assume
 //@   modifies nothing
 //@ end
-//@ extern func math.IsNaN
-//@   modifies nothing
-//@ end
-//@ extern func math.IsInf
-//@   modifies nothing
-//@ end
 //@ globalinv ErrBadMetricPBFormat != nil && ErrMetricEmptyFieldName != nil && ErrMetricEmptyTagKeyValue != nil && ErrMetricInfField != nil && ErrMetricNanField != nil && ErrMetricPBEmptyField != nil && ErrMetricPBEmptyMetricName != nil && ErrMetricPBNilMetric != nil && constants.ErrFieldNameTooLong != nil && constants.ErrMetricNameTooLong != nil && constants.ErrTagKeyTooLong != nil && constants.ErrTagValueTooLong != nil && constants.ErrTooManyFields != nil && constants.ErrTooManyTagKeys != nil
 //@ func BrokerRowProtoConverter.validateMetric
 //@   prop C16
